@@ -276,6 +276,50 @@ def _datetime_products(ctx):
                         got = (p.year, p.month, p.day, p.hour, p.minute, p.second, p.end_of_day)
                         if got != want:
                             ctx.violation(f'datetime/fields/{s}', {'xml': s, 'got': got, 'want': want}, case={'kind': 'datetime', 'xml': s})
+    # every whole-minute time zone offset of the value space (-14:00 .. +14:00)
+    for minutes in range(-14 * 60, 14 * 60 + 1):
+        sign = '-' if minutes < 0 else '+'
+        z = f'{sign}{abs(minutes) // 60:02d}:{abs(minutes) % 60:02d}'
+        s = f'2024-02-29T12:34:56{z}'
+        n += 1
+        ctx.add('states')
+        ctx.transition(2)
+        ctx.evals()
+        try:
+            p = isoduration.parse_date_time(s)
+            out = str(p)
+            p2 = isoduration.parse_date_time(out)
+        except ValueError as ex:
+            ctx.violation(f'datetime/tz-rejected/{z}', {'xml': s, 'error': str(ex)}, case={'kind': 'datetime', 'xml': s})
+            continue
+        want_offset = datetime.timedelta(minutes=minutes)
+        if p.tz_info is None or p.tz_info.utcoffset(None) != want_offset:
+            ctx.violation(f'datetime/tz-parsed-wrong/{z}', {'xml': s, 'offset': str(p.tz_info)}, case={'kind': 'datetime', 'xml': s})
+        if out != (s if minutes != 0 else s[:-6] + 'Z') or p2 != p:
+            ctx.violation(f'datetime/tz-written-wrong/{"negative-below-one-hour" if -60 < minutes < 0 else "other"}',
+                          {'xml': s, 'str': out}, case={'kind': 'datetime', 'xml': s})
+        # the same offset on a value built in Python
+        built = isoduration.XsdDateInformation(2024, 2, 29, 12, 34, 56.0, tz_info=datetime.timezone(want_offset))
+        if str(built) != out:
+            ctx.violation(f'datetime/tz-built-wrong/{"negative-below-one-hour" if -60 < minutes < 0 else "other"}',
+                          {'built': str(built), 'parsed': out}, case={'kind': 'datetime', 'xml': s})
+    # values built in Python with integer and float seconds
+    for sec in list(range(60)) + [float(x) for x in range(60)] + [0.5, 9.999999, 10.000001, 59.999999, 0.000001]:
+        n += 1
+        ctx.add('states')
+        ctx.transition(2)
+        ctx.evals()
+        built = isoduration.XsdDateInformation(2004, 3, 6, 14, 15, sec)
+        out = str(built)
+        try:
+            back = isoduration.parse_date_time(out)
+        except ValueError as ex:
+            ctx.violation(f'datetime/built-not-parseable/seconds={type(sec).__name__}', {'second': sec, 'str': out, 'error': str(ex)},
+                          case={'kind': 'datetime', 'xml': out})
+            continue
+        if back.second != float(sec) or (back.hour, back.minute) != (14, 15):
+            ctx.violation(f'datetime/built-roundtrip/seconds={type(sec).__name__}', {'second': sec, 'str': out, 'read': back.second},
+                          case={'kind': 'datetime', 'xml': out})
     ctx.add('datetimes', n)
     illegal = ['2024-13-01', '2024-00-10', '2024-01-32', '2024-01-00', '2024-01-01T24:00:01', '2024-01-01T25:00:00',
                '2024-01-01T12:60:00', '2024-01-01T12:00:60', '2024-01-01T12:00', '24-01-01', '2024-1-1', '02024',
